@@ -35,6 +35,7 @@ type Job struct {
 	Model     map[string]uint64 `json:"model,omitempty"`
 	Concrete  []uint64       `json:"concrete,omitempty"` // concrete mode: harness nondets take these values in order
 	MaxConc   int            `json:"maxconc,omitempty"`  // concretisation fan-out cap (default 64)
+	ConcRet   []string       `json:"concret,omitempty"`  // functions whose scalar result is concretised eagerly (exploration strategy only)
 	DeadlineS float64        `json:"deadline_s,omitempty"`
 }
 
@@ -65,6 +66,7 @@ type Result struct {
 	Decisions  int               `json:"decisions"`
 	Concretize int               `json:"concretize"`
 	DomDecided int               `json:"dom_decided"`
+	CacheHits  int               `json:"cache_hits"`
 	Asserts    int               `json:"asserts"`
 	Discharged int               `json:"discharged"`
 	Unknown    int               `json:"unknown"`
@@ -89,9 +91,10 @@ type Result struct {
 }
 
 type loaded struct {
-	prog  *ssa.Program
-	pkg   *ssa.Package
-	loadS float64
+	prog      *ssa.Program
+	pkg       *ssa.Package
+	loadS     float64
+	linknames map[string]string // bodyless function (full name) -> //go:linkname target
 }
 
 func overlayFiles(lf loadFlags) (map[string][]byte, string, error) {
@@ -160,9 +163,25 @@ func loadProgram(lf loadFlags) (*loaded, error) {
 	if nerr > 0 {
 		return nil, fmt.Errorf("load errors:\n%s", sb.String())
 	}
+	// //go:linkname directives: the binding of bodyless functions to runtime symbols is part of the program
+	links := map[string]string{}
+	packages.Visit(pkgs, nil, func(p *packages.Package) {
+		for _, f := range p.Syntax {
+			for _, cg := range f.Comments {
+				for _, c := range cg.List {
+					if strings.HasPrefix(c.Text, "//go:linkname ") {
+						fs := strings.Fields(c.Text)
+						if len(fs) == 3 {
+							links[p.PkgPath+"."+fs[1]] = fs[2]
+						}
+					}
+				}
+			}
+		}
+	})
 	prog, spkgs := ssautil.AllPackages(pkgs, ssa.InstantiateGenerics)
 	prog.Build()
-	return &loaded{prog: prog, pkg: spkgs[0], loadS: time.Since(t0).Seconds()}, nil
+	return &loaded{prog: prog, pkg: spkgs[0], loadS: time.Since(t0).Seconds(), linknames: links}, nil
 }
 
 func workerMain(args []string) {
